@@ -352,3 +352,12 @@ def _is_channel(p):
 
 def _group_of(p):
     return "/'" + _components(p)[0].replace("'", "''") + "'"
+
+
+def scratch(prefix):
+    """A fresh scratch directory under the run's scratch root (created and removed by mc.run; RAM-backed when /dev/shm exists)."""
+    import tempfile
+    root = os.environ.get('VERIF_SCRATCH_ROOT')
+    if not root or not os.path.isdir(root):
+        root = '/dev/shm' if os.path.isdir('/dev/shm') else None
+    return tempfile.mkdtemp(prefix=prefix, dir=root)
